@@ -31,6 +31,11 @@ def grammar_cfg(shift="mul", poe="clear", pw=64, emit="FALSE", mall="FALSE", inv
     return "\n".join(t) + "\n"
 
 
+def reader_cfg(base, maxfaults, src):
+    return "\n".join(["SPECIFICATION Spec", "CONSTANTS", '  MatcherFallback = "kmp"', "  DiscWidth = 0", "  BaseId = %d" % base, "  MaxFaults = %d" % maxfaults,
+                      "  Cap = 1073741824", '  SrcKind = "%s"' % src, "INVARIANT FaultsOK", "INVARIANT LoopsAgree", "CHECK_DEADLOCK FALSE"]) + "\n"
+
+
 def tlf_cfg(shift, first, nxt, maxlen):
     return "\n".join(["SPECIFICATION Spec", "CONSTANTS", '  ShiftCheck = "%s"' % shift, "  FirstBytes <- %s" % first, "  NextBytes <- %s" % nxt,
                       "  MaxLen = %d" % maxlen, "INVARIANT Exact", "CHECK_DEADLOCK FALSE"]) + "\n"
@@ -55,28 +60,16 @@ MC = {
                       "cfg": dec_cfg("TokPAY", "FirstPAY", 2, ["TypeOK", "RoundTrip", "NothingAfter", "Sound", "Tiles"], paylen=q(4, 6))},
     "capacity_pay": {"module": "MC_Decoder",
                      "cfg": dec_cfg("TokCAP", "FirstCAP", 2, ["TypeOK", "CapacityRule", "CapRespect", "Resync", "Tiles"],
-                                    caps=q("CapsQuick", "CapsThorough"), paylen=q(4, 8))},
+                                    caps=q("CapsQuick", "CapsThorough"), paylen=q(4, 7))},
     "frame_rle": {"module": "MC_FrameRle", "workers": 2, "cfg": "INIT Init\nNEXT Next\nINVARIANT Agree\nCONSTANTS\n  PayBytes = {27, 0, 85, 1}\n  PayLen = 6\nCHECK_DEADLOCK FALSE\n"},
     "arraybuf": {"module": "MC_ArrayBuf",
                  "cfg": lambda tier: "SPECIFICATION Spec\nCONSTANTS\n  Caps = {0, 1, 2, 3}\n  ByteVals = {0, 1}\n  MaxOps = %d\n  MaxSlice = %d\n  EmitJson = FALSE\n"
                                      "INVARIANT Refines\nINVARIANT SameResult\nINVARIANT ViewOnly\nCHECK_DEADLOCK FALSE\n" % ((5, 2) if tier == "thorough" else (4, 2))},
-    "reader_faults_1": {"module": "MC_Reader", "workers": 2,
-                        "cfg": lambda tier: "SPECIFICATION Spec\nCONSTANTS\n  MatcherFallback = \"kmp\"\n  DiscWidth = 0\n  BaseId = 1\n  MaxFaults = %d\n  Cap = 1073741824\n"
-                                            "INVARIANT FaultsOK\nINVARIANT LoopsAgree\nCHECK_DEADLOCK FALSE\n" % (2 if tier == "thorough" else 1)},
-    "reader_faults_2": {"module": "MC_Reader", "workers": 2,
-                        "cfg": lambda tier: "SPECIFICATION Spec\nCONSTANTS\n  MatcherFallback = \"kmp\"\n  DiscWidth = 0\n  BaseId = 2\n  MaxFaults = %d\n  Cap = 1073741824\n"
-                                            "INVARIANT FaultsOK\nINVARIANT LoopsAgree\nCHECK_DEADLOCK FALSE\n" % (2 if tier == "thorough" else 1)},
-    "reader_faults_3": {"module": "MC_Reader", "workers": 2,
-                        "cfg": lambda tier: "SPECIFICATION Spec\nCONSTANTS\n  MatcherFallback = \"kmp\"\n  DiscWidth = 0\n  BaseId = 3\n  MaxFaults = %d\n  Cap = 1073741824\n"
-                                            "INVARIANT FaultsOK\nINVARIANT LoopsAgree\nCHECK_DEADLOCK FALSE\n" % (2 if tier == "thorough" else 1)},
-    "grammar": {"module": "MC_Grammar", "workers": 8,
-                "cfg": lambda tier: grammar_cfg(mall="TRUE" if tier == "thorough" else "FALSE")},
-    "neg_pending_keep": {"module": "MC_Grammar", "workers": 8, "expect": "Terminates", "cfg": grammar_cfg(poe="keep", invs=("Terminates",))},
-    "neg_pending_32": {"module": "MC_Grammar", "workers": 8, "expect": "NoCountdownOverflow", "cfg": grammar_cfg(pw=32, invs=("NoCountdownOverflow",))},
-    "tlf_exact": {"module": "MC_Tlf", "workers": 8,
-                  "cfg": lambda tier: tlf_cfg("mul", "AllBytes", "AllBytes", 3) if tier == "thorough" else tlf_cfg("mul", "AllBytes", "SomeNext", 4)},
-    "tlf_long": {"module": "MC_Tlf", "workers": 8, "cfg": tlf_cfg("mul", "SomeFirst", "FewNext", 12)},
-    "neg_tlf_shl": {"module": "MC_Tlf", "workers": 8, "expect": "Exact", "cfg": tlf_cfg("shl", "SomeFirst", "FewNext", 12)},
+    "reader_faults_1": {"module": "MC_Reader", "workers": 2, "cfg": lambda tier: reader_cfg(1, 2 if tier == "thorough" else 1, "io")},
+    "reader_faults_2": {"module": "MC_Reader", "workers": 2, "cfg": lambda tier: reader_cfg(2, 2 if tier == "thorough" else 1, "io")},
+    "reader_faults_3": {"module": "MC_Reader", "workers": 2, "cfg": lambda tier: reader_cfg(3, 2 if tier == "thorough" else 1, "io")},
+    # the same schedules through the embedded-hal 0.2 serial source (no end of input, no Interrupted)
+    "reader_faults_eh": {"module": "MC_Reader", "workers": 2, "cfg": lambda tier: reader_cfg(1, 2 if tier == "thorough" else 1, "eh")},
     "encoders": {"module": "MC_Encoder",
                  "cfg": lambda tier: "SPECIFICATION Spec\nCONSTANTS\n  PayBytes = {27, 0, 85}\n  PayLen = %d\n  ExtraCalls = 3\n"
                                      "INVARIANT NoPanicArm\nINVARIANT IterPrefix\nINVARIANT IterComplete\nINVARIANT Fused\nINVARIANT PadCounter\n"
@@ -132,7 +125,7 @@ PROPS = {
     "C05": dict(T("push/finalize/reset histories (HIST), INFRAME, NOISE, corpus, mutations on Decoder<Vec> and Decoder<ArrayBuf<N>> N in {0,1,2,3,8}, each followed by finalize + empty frame + finalize; "
                   "long runs (2^8, 2^16 +-1, 2^17+1) through all front-ends; overflow-checked build; distinct = distinct (capacity, event list)"),
                 mc={"quick": ["total_hist"], "thorough": ["total_hist", "boundary_hist"]},
-                steps=[{"cmd": "c05", "judge": "J_C05", "profile": "checked"},
+                steps=[{"cmd": "c05", "judge": "J_C05", "profile": "checked", "watchdog": {"quick": 600, "thorough": 5400}},
                        {"cmd": "c05", "judge": "J_Conf", "profile": "checked", "reuse": True, "drift": True}]),
     "C07": dict(T("same payload families as C01; both encoders compared with Frame.Canonical; ArrayBuf capacities around the frame length; 5 extra next() calls after the iterator ended"),
                 mc={"quick": ["encoders"], "thorough": ["encoders"]},
@@ -178,7 +171,7 @@ PROPS = {
     "C11": dict(T("4 base streams (noise, frames with withheld zeros / literal escapes / re-alignment / bad checksum, cut frame, partial start sequence) x end of input at every (third) position x one fault of "
                   "{would-block, interrupted, other} at every position x {next, read, next_nb, read_nb}; two faults exhaustively (thorough) or sampled; random 2-4 fault schedules; corpus frames with random "
                   "schedules; each record carries the fault-free run and the fresh-reader run on the remainder"),
-                mc={"quick": ["reader_faults_1", "reader_faults_2", "reader_faults_3"], "thorough": ["reader_faults_1", "reader_faults_2", "reader_faults_3"]},
+                mc={"quick": ["reader_faults_1", "reader_faults_2", "reader_faults_3", "reader_faults_eh"], "thorough": ["reader_faults_1", "reader_faults_2", "reader_faults_3", "reader_faults_eh"]},
                 steps=[{"cmd": "c11", "judge": "J_C11"}]),
     "C12": dict(P("every 1- and 2-byte TLF, a strided (quick) / exhaustive (thorough) set of 3-byte TLFs, crafted 4-12 byte TLFs around 2^32 and the own-size subtraction, integers of width 0-9 with "
                   "boundary leading bytes, all boolean bytes - each at 8 field positions of a message template, observed through the streaming parser's events"),
